@@ -122,7 +122,8 @@ def main(chk: Check):
     rng = chk.rng
 
     def uw_case(kw, chs, nfl):
-        res = impl_call(lambda: [keyid.get(k, 99) for k in ch.BugUpdate(**kw).to_wire([1]).keys()])
+        wire = impl_call(lambda: ch.BugUpdate(**kw).to_wire([1]))
+        res = wire if isinstance(wire, Err) else [keyid.get(k, 99) for k in wire.keys()]
         scal = [kw.get(f) is not None for f in
                 ("status", "resolution", "dupe_of", "summary", "assigned_to", "whiteboard", "deadline")]
         term = ("{| scalars := %s; changes := %s; nflags := %s; has_comment := %s; has_pkglist := %s; has_rtr := %s |}"
@@ -137,7 +138,10 @@ def main(chk: Check):
             + [8 + i for i, c in enumerate(chs) if (c[0] or c[1] or c[2] is not None)] \
             + ([14] if nfl else []) + ([15] if "comment" in kw else []) \
             + ([16] if "package_list" in kw else []) + ([17] if "runtime_testing_required" in kw else [])
-        if isinstance(res, Err) or sorted(res) != want:
+        vals_ok = not isinstance(wire, Err) and all(
+            wire.get(k) == (str(kw[k]) if k in ("status", "resolution") else kw[k])
+            for k in ("status", "resolution", "dupe_of", "summary", "assigned_to", "whiteboard") if kw.get(k) is not None)
+        if isinstance(res, Err) or sorted(res) != want or not vals_ok:
             wire_bad.append({"fields_set": sorted(k for k in kw if not (k in ("cc", "keywords", "blocks", "depends_on", "see_also", "groups") and not kw[k]) and not (k == "flags" and not kw[k])),
                              "values": {k: repr(v) for k, v in kw.items()}, "wire_key_ids": res, "expected_key_ids": want})
 
@@ -164,15 +168,22 @@ def main(chk: Check):
             chs[j] = c
             uw_case({name: L(*c)}, chs, 0)
     uw_case({"flags": (ch.FlagChange("f", FlagStatus.GRANTED),)}, list(empty6), 1)
+    # every status x resolution pairing the constructor accepts (a resolution may accompany ANY explicit
+    # status, not only RESOLVED), alone and then mixed into the random stream
+    stres = [{}]
+    for st in Status:
+        for rs in [None] + list(Resolution):
+            k = {"status": st}
+            if rs is not None:
+                k["resolution"] = rs
+            if rs is Resolution.DUPLICATE:
+                k["dupe_of"] = 7
+            if not isinstance(impl_call(lambda: ch.BugUpdate(**k), kinds=KINDS), Err):
+                stres.append(k)
+    for k in stres[1:]:
+        uw_case(dict(k), list(empty6), 0)
     for _ in range(chk.n(300, 3000)):
-        st = rng.choice([None, "open", "fixed", "dup"])
-        kw = {}
-        if st == "open":
-            kw["status"] = Status.CONFIRMED
-        elif st == "fixed":
-            kw.update(status=Status.RESOLVED, resolution=Resolution.FIXED)
-        elif st == "dup":
-            kw.update(status=Status.RESOLVED, resolution=Resolution.DUPLICATE, dupe_of=7)
+        kw = dict(rng.choice(stres)) if rng.random() < 0.75 else {}
         for f, v in (("summary", ""), ("assigned_to", "x@y"), ("whiteboard", ""),
                      ("deadline", datetime.date(2026, 1, 2))):
             if rng.random() < 0.4:
